@@ -23,35 +23,38 @@
           (NormSem.norm_sem: flattenFragments = CollectFields, mergeSameAlias = grouping by response key,
           flatten's recursion in lock-step with the reference evaluator's, member by member on unions).
     Premises -- all decidable, all evaluated on the generated cases ([Premises.premises], component 6 of the
-    correspondence check; the harness reports how many cases of a run satisfy them):
-      [fed_ok g], [fed_ok2 g]   every service that serves a field of a type has _federation on the type and on
-                                what the field returns, serves the federated keys, and can re-fetch the object
-                                by id; nothing returns Query; id/org are scalars (what validateFederatedObjects /
-                                validateFederationKeys enforce; excludes schemas with non-federated objects);
-      [calls_ok g calls]        the data is well typed: object-typed fields yield (lists of) objects of that type,
-                                union-typed fields members of the union, scalar-typed fields scalars;
+    correspondence check; every model-evaluated case of a run satisfies them, the harness reports the count):
+      [fed_ok0 g]               nothing returns Query, Query is no union member, no service is called like the
+                                coordinator;
+      [plain_ok g]              the plain (non-federated) object Leaf -- registered without key and without
+                                _federation by every service whose fields return it -- has scalar fields only, is
+                                no union member, is not subject to the ServiceSelector, and whoever serves a field
+                                returning it serves all of its fields (so the planner never hops below it);
+      [fed_ok2 g]               every service that serves a field of a federated object can re-fetch it by id;
+                                id/org are scalars; results of Query carry no __key;
+      [sel_ok g]                every field has an owner, a ServiceSelector entry names an owner (the two ways
+                                selectService can fail);
+      [calls_ok g calls]        the data is well typed: object-typed fields yield (lists of) objects of that type
+                                (ALeaf for Leaf), union-typed fields members of the union, scalar-typed fields scalars;
       [forallb qwf q]           the query is shaped as the parser delivers it (a selection without a selection set
                                 has no sub-selections); @skip/@include are unrestricted: on field selections
                                 (__typename, repeated aliases included), on fragments, both on one node;
       [flat_ok g "Query" flat]  the normalised query selects known fields, uses no reserved alias
                                 (_federation, __key; __typename only for __typename), keeps no selection its
                                 directives exclude (true by construction of the repaired flattener, patches/C06-fix-4),
-                                and every union selection covers every member with a non-empty fragment;
-      [plan_root .. = Some p]   the planner produces a plan (for the implementation: compared on every run).
+                                and every union selection covers every member with a non-empty fragment.
+    That the planner succeeds is NOT a premise: [planner_total] / [planner_total_on_normal_forms].
+    [fed_ok g] (who has _federation on what, who serves the federated keys) is not needed for the equality of
+    answers -- the model's services answer any selection -- but for the plans to be executable by real services:
+    [subquery_closed], evaluated on every case in which each service has a federated object.
     Outside these premises the property is FALSE of the implementation in known ways (DESIGN F4/F5/F17 and the
-    findings in KNOWN_FINDINGS: partial union coverage), or not modelled (non-federated objects); the harness'
-    oracle covers those cases end to end.  The flattener as it was (selections excluded by their own
-    directives took part in the grouping by alias, [fed_exec_gen false]) violated the property:
-    [gateway_merges_excluded_selection_refuted].
-    Schema refreshes: the model has no refresh step.  [fed_exec] plans and executes with one planner; the
-    implementation does the same (Execute captures the planner once and hands it to every runOnService), so a
-    refresh that lands between two steps of a request does not change its answer.  That "a request uses one
-    planner throughout" is an ASSUMPTION of this file; it is checked on the implementation by the harness on
-    every generated case with a hop (request held after planning, planner of another version set installed,
-    request released: same answer), not proved.
-    NOT proved: that [plan_root] succeeds whenever the premises on [g] and [flat] hold (it is a premise), and
-    the relation between [eval_ref .. true] and [eval_ref .. false] (removing the __typename entries the query
-    did not ask for), which the harness' comparison implements. *)
+    findings in KNOWN_FINDINGS: partial union coverage -- 18 % of the generated cases) or not modelled (mutations:
+    the model's root is Query); the harness' oracle covers those cases end to end.  The flattener as it was
+    (selections excluded by their own directives took part in the grouping by alias, [fed_exec_gen false])
+    violated the property: [gateway_merges_excluded_selection_refuted].
+    Schema refreshes: see [request_uses_one_snapshot] and the theorems after it (Federation/Refresh.v).
+    NOT proved: the relation between [eval_ref .. true] and [eval_ref .. false] (removing the __typename entries
+    the query did not ask for), which the harness' comparison implements. *)
 From Coq Require Import List String Bool ZArith Permutation.
 From Thunder Require Import Lib.Json Federation.Merge Federation.Normalize Federation.Planner Federation.Executor
   Federation.NormalizeProofs Federation.PlannerProofs Federation.ExecutorProofs Federation.FedWitness
@@ -164,8 +167,9 @@ Print Assumptions normalisation_preserves_meaning.
     [fed_ok g] is decidable and evaluated on every generated federation: a service serving a field of a type
     has _federation on that type and on the objects the field returns; whoever has _federation on a type
     serves the fields other services use as its federated keys (what validateFederatedObjects /
-    validateFederationKeys enforce).  Arguments are not part of the model's schema; the harness checks them on
-    every recorded sub-request. *)
+    validateFederationKeys enforce); the plain object Leaf has no _federation: [plain_ok g] says that a service
+    that serves a field returning it serves all of it, and then every selection on it stays with that service.
+    Arguments are not part of the model's schema; the harness checks them on every recorded sub-request. *)
 Theorem subquery_closed :
   forall g pick fuel flat p,
     fed_ok g = true -> plain_ok g = true -> (forall l s, pick l = Some s -> In s l) ->
@@ -267,6 +271,23 @@ Example federation_transparent_nonvacuous :
   | _ => False
   end.
 Proof. exact witness2. Qed.
+
+(** ... and with the plain object: Leaf values at the root and, in a list with a null, below a hop; repeated
+    aliases, a fragment and a skipped selection on it; all premises hold (also those of [subquery_closed]), both
+    sides answer the same map, and the sub-plan sent to s2 carries the selections on the Leaf objects. *)
+Example federation_transparent_leaf_nonvacuous :
+  premises wg3 calls3 pick1 q3 = true /\ fed_ok wg3 = true /\ plain_ok wg3 = true /\
+  option_map norm (fed_exec (world_of calls3 []) wg3 pick1 false true q3) = Some ans3 /\
+  option_map norm (eval_ref (world_of calls3 []) wg3 true (2 * depth_list q3 + 4) "Query" 0%Z q3) = Some ans3 /\
+  match flatten (2 * depth_list q3 + 4) false wg3 (RObj "Query") (Some q3) with
+  | Some (Some flat) =>
+      match plan_root wg3 pick1 (2 * (2 * depth_list q3 + 4) + 2) flat with
+      | Some (Plan _ _ _ _ [Plan _ "s1" _ _ [Plan _ "s2" "A" [NField "l" "l" _ _ _ true [_; _]] []]]) => True
+      | _ => False
+      end
+  | _ => False
+  end.
+Proof. exact witness3. Qed.
 
 (** Non-vacuity of [planner_total]: the witness federation has an owner for every field and a valid selector;
     the normal form of the witness query is well-formed, needs 7 units of planner fuel, gets 22, and its plan
